@@ -1,0 +1,12 @@
+//go:build verif
+
+package httpd
+
+import (
+	"github.com/openGemini/openGemini/lib/util/lifted/influx/query"
+)
+
+// VerifConvertToEpoch is what serveQuery applies to every result before it is written when the
+// request carries epoch=<unit> (anything but rfc3339). Verification builds only (build tag
+// `verif`), property C06.
+func VerifConvertToEpoch(r *query.Result, epoch string) { convertToEpoch(r, epoch) }
